@@ -54,6 +54,9 @@ TEXTS.update({
  "C13": _t("rapid property tests; exactly-one-carrier model over contiguous segment grids; own splice_info_section parser with CRC-32/MPEG-2",
            EXPL_NOTE + "Library level over thousands of grids incl. the PTS wrap; HTTP level over bundled and generated assets for three consecutive minutes.",
            TRUST, "DESIGN.md §7 C13"),
+ "C11": _t("rapid property tests; round trip old + served patch == new with an independent RFC 5261 applier and canonical XML comparison; generated tree pairs for MPDDiff",
+           EXPL_NOTE + "HTTP pairs cover additions, removals, repeat-count changes, wraps, period changes, 425 and 410; thousands of generated id-carrying trees for the diff itself.",
+           TRUST + " internal/xmlpatch is the harness's own applier; one open known finding (KF-C11-base-mismatch).", "DESIGN.md §7 C11"),
 })
 
 _claimed = set(TEXTS)
